@@ -73,6 +73,7 @@ def check(run):
     catsync(run, p)
     evidence(run, p)
     discard(run, p)
+    wspad(run, p)
     from .. import ief, triage
     ief.run_ief(run, 'C03', [p.fn(RX + 'extract'), p.fn(RX + 'pdextract'), p.method('Extractor', '__init__')], triage=triage.IEF, selfattr=True)
     run.floor('C03-IEF', run.units['ief_functions_checked'], 60)
@@ -555,3 +556,24 @@ def discard(run, p, rid='C03-DISCARD'):
                'clean keeps %r (expected %r); nulls/empties/stripped = %r (expected %r)' % (
                    got, want, (o.attrs['n_nulls'], o.attrs['n_empties'], o.attrs['n_stripped']), (nn, ne, ns)), fn=f)
     run.floor(rid, n, 8)
+
+
+def wspad(run, p, rid='C03-WSPAD'):
+    from .common import names_in
+    run.rule(rid, 'if any example was stripped, every returned expression lets the whitespace back in - also the expression for '
+                  'examples that were blank: in vrle2re and vrle2refrags the test that guards the \\s* padding depends on '
+                  'self.n_stripped alone (not on the pattern having fragments)')
+    n = 0
+    for name in ('vrle2re', 'vrle2refrags'):
+        f = p.method('Extractor', name)
+        tests = [x for x in p.own_nodes(f) if isinstance(x, (ast.If, ast.IfExp)) and 'self.n_stripped' in names_in(x.test)]
+        if not tests:
+            raise AnalysisError('%s no longer tests self.n_stripped' % name)
+        for t in tests:
+            n += 1
+            extra = sorted(names_in(t.test) - {'self.n_stripped', 'self'})
+            run.ob(rid, '%s::%s::%s' % (f.rel, f.short, norm(t.test)[:40]), not extra,
+                   '%s pads with whitespace under `%s`%s' % (name, norm(t.test)[:50], '' if not extra else
+                                                            ': also depends on %s, so some expressions go without their padding' % extra),
+                   fn=f, node=t)
+    run.floor(rid, n, 2)
